@@ -2168,15 +2168,19 @@ class Process:
 
         def _get_eligible_cpus(
             self,
-            _re=re.compile(
-                br"^Cpus_allowed_list:\t(\d+)-(\d+)", re.MULTILINE
-            ),
+            _re=re.compile(br"^Cpus_allowed_list:\t([\d,-]+)$", re.MULTILINE),
         ):
             # See: https://github.com/giampaolo/psutil/issues/956
             data = self._read_status_file()
             match = _re.findall(data)
             if match:
-                return list(range(int(match[0][0]), int(match[0][1]) + 1))
+                # The format is a comma separated list of CPU numbers and
+                # ranges, e.g. "0-3", "2" or "0-2,5-6,9".
+                cpus = []
+                for chunk in match[0].decode().split(','):
+                    first, _, last = chunk.partition('-')
+                    cpus.extend(range(int(first), int(last or first) + 1))
+                return cpus
             else:
                 return list(range(len(per_cpu_times())))
 
